@@ -25,6 +25,19 @@ fn is_builtin_function(name: &str) -> bool {
     )
 }
 
+/// The number of arguments a built-in function takes.
+fn builtin_function_arity(name: &str) -> Option<usize> {
+    match name {
+        "CHOICE_COUNT" | "TURNS" => Some(0),
+        "SEED_RANDOM" | "FLOOR" | "CEILING" | "INT" | "FLOAT" | "READ_COUNT" | "TURNS_SINCE"
+        | "LIST_VALUE" | "LIST_ALL" | "LIST_INVERT" | "LIST_COUNT" | "LIST_MIN" | "LIST_MAX"
+        | "LIST_RANDOM" => Some(1),
+        "RANDOM" | "POW" | "MIN" | "MAX" => Some(2),
+        "LIST_RANGE" => Some(3),
+        _ => None,
+    }
+}
+
 /// Collect gather/choice labels and their qualified paths into `targets`.
 fn collect_labels_from_nodes(nodes: &[Node], prefix: &str, targets: &mut BTreeSet<String>) {
     for node in nodes {
